@@ -189,9 +189,10 @@ def run_case(ctx, rng, idx, params, tier):
         # having looked at the literals inside), optionally followed by a random third variant
         a, b = PAIRS[(idx // 2 + rng.randrange(len(PAIRS))) % len(PAIRS)] if tier != "quick" else \
             PAIRS[(idx // 2) % len(PAIRS)]
-        variants = [([a], rng.choice(list(RET)), False), ([b], rng.choice(list(RET)), False)]
+        plain = ["int", "float", "bool", "None"]  # (result-only generic variants would reject every synthesis site)
+        variants = [([a], rng.choice(plain), False), ([b], rng.choice(plain), False)]
         if rng.random() < 0.5:
-            variants.append(([rng.choice(PTYPES)], rng.choice(list(RET)), False))
+            variants.append(([rng.choice(PTYPES)], rng.choice(plain), False))
         arglists = [([b], [src]) for src in ARGS[b]] + [([a], [src]) for src in ARGS[a][:2]]
     nest = None
     if rng.random() < 0.35 and len(variants) >= 3:
